@@ -4,7 +4,7 @@
 //! interface queues of the node are drained.  One receive buffer per node is reused for all events, as in
 //! GenericCloud::run.  Simulated time starts at T0 (see DESIGN.md Appendix A: clock origin).
 use super::util::*;
-use crate::cloud::GenericCloud;
+use crate::cloud::{verif_events_start, verif_events_stop, verif_events_take, GenericCloud, VerifEvent, VerifInfo};
 use crate::config::Config;
 use crate::crypto::VERIF_SPEEDS;
 use crate::device::MockDevice;
@@ -47,6 +47,9 @@ pub struct Dgram {
     pub from: u16,
     pub to: SocketAddr,
     pub bytes: Vec<u8>,
+    /// instance counter of the sending node and the kind of message as reported by the send hook (only when tracing)
+    pub inc: u32,
+    pub tag: &'static str,
 }
 
 pub struct InFlight {
@@ -56,6 +59,8 @@ pub struct InFlight {
     pub to: u16,
     pub id: u64,
     pub bytes: Vec<u8>,
+    /// origin of a genuine datagram (sending node, its instance, kind of message); (0, 0, "forged") for fabricated bytes
+    pub orig: (u16, u32, &'static str),
 }
 
 pub struct Faults {
@@ -84,6 +89,7 @@ pub struct CallResult {
     pub panicked: bool,
     pub sent: Vec<Dgram>,
     pub iface: Vec<Vec<u8>>,
+    pub evs: Vec<VerifEvent>,
 }
 
 pub struct Sim<P: Protocol> {
@@ -107,6 +113,10 @@ pub struct Sim<P: Protocol> {
     pub seen_as: HashMap<u16, SocketAddr>,
     /// destination-dependent translation (hair-pinning): what node `from` sends to `dst` arrives with this source
     pub hairpin: HashMap<(u16, SocketAddr), SocketAddr>,
+    /// event-by-event trace for Cloud.tla (None = off)
+    pub trace: Option<Vec<String>>,
+    /// public key text -> label of a key (filled by the drivers that generate keys)
+    pub max_trace: usize,
 }
 
 pub fn base_config(mode: Mode) -> Config {
@@ -138,7 +148,202 @@ impl<P: Protocol> Sim<P> {
             alias: HashMap::new(),
             seen_as: HashMap::new(),
             hairpin: HashMap::new(),
+            trace: None,
+            max_trace: 400_000,
         }
+    }
+
+    // ------------------------------------------------------------------------------------------ event trace (Cloud.tla)
+
+    /// starts recording one event per driver call (state projection of the acting node after the call, classified
+    /// result and emissions from the guarded event log of src/cloud.rs)
+    pub fn trace_on(&mut self) {
+        verif_events_start();
+        self.trace = Some(vec![]);
+        self.tev(json!({"op": "reset", "now": self.now}));
+        for i in 0..self.nodes.len() {
+            self.trace_boot(i);
+        }
+    }
+
+    pub fn trace_take(&mut self) -> Vec<String> {
+        verif_events_stop();
+        self.trace.take().unwrap_or_default()
+    }
+
+    fn tev(&mut self, v: Value) {
+        let max = self.max_trace;
+        if let Some(t) = self.trace.as_mut() {
+            if t.len() < max {
+                t.push(v.to_string());
+            }
+        }
+    }
+
+    fn tracing(&self) -> bool {
+        self.trace.as_ref().map(|t| t.len() < self.max_trace).unwrap_or(false)
+    }
+
+    fn key_labels(cfg: &Config) -> (String, Vec<String>) {
+        use crate::crypto::Crypto;
+        let own = if let Some(pk) = &cfg.crypto.private_key {
+            Crypto::public_key_from_private_key(pk).unwrap_or_else(|_| "?".into())
+        } else {
+            Crypto::generate_keypair(Some(cfg.crypto.password.as_deref().unwrap_or("test123"))).1
+        };
+        let trusted = if cfg.crypto.trusted_keys.is_empty() { vec![own.clone()] } else { cfg.crypto.trusted_keys.clone() };
+        (own, trusted)
+    }
+
+    fn trace_boot(&mut self, i: usize) {
+        if self.trace.is_none() {
+            return;
+        }
+        let cfg = self.nodes[i].cfg.clone();
+        let (own, trusted) = Self::key_labels(&cfg);
+        let (learn, bc) = self.nodes[i].node.verif_flags();
+        let plain = cfg.crypto.algorithms.iter().any(|a| a.eq_ignore_ascii_case("plain"));
+        let adv: Vec<u16> = cfg.advertise_addresses.iter().filter_map(|a| a.parse::<SocketAddr>().ok()).map(|a| port_of(&a)).collect();
+        let post = self.post(i);
+        self.tev(json!({"op":"boot","n":i + 1,"inc":self.nodes[i].inc,"T":cfg.peer_timeout,"st":cfg.switch_timeout,"ka":cfg.keepalive.map(|k| k as i64).unwrap_or(-1),"fresh":true,
+                        "claims":cfg.claims,"learn":learn,"bc":bc,"key":own,"trusted":trusted,"plain":plain,"adv":adv,"nat":self.nodes[i].nat,"post":post}));
+    }
+
+    fn nid(&self, id: &[u8; 16]) -> Value {
+        let (p, inc) = self.node_ids.get(id).copied().unwrap_or((0, 0));
+        json!([p, inc])
+    }
+
+    fn info_json(&self, info: &VerifInfo) -> Value {
+        let peers: Vec<Value> = info
+            .peers
+            .iter()
+            .map(|(id, addrs)| json!({"nid": id.map(|i| self.nid(&i)).unwrap_or(json!([0, 0])), "hasid": id.is_some(), "addrs": addrs.iter().map(port_of).collect::<Vec<_>>()}))
+            .collect();
+        json!({"nid": self.nid(&info.node_id), "claims": info.claims.iter().map(|r| format!("{}", r)).collect::<Vec<_>>(),
+               "pt": info.peer_timeout.map(|v| v as i64).unwrap_or(-1), "addrs": info.addrs.iter().map(port_of).collect::<Vec<_>>(), "peers": peers})
+    }
+
+    /// state projection of node i for the event trace (absolute times)
+    pub fn post(&self, i: usize) -> Value {
+        let n = &self.nodes[i].node;
+        let objs = n.verif_init_objects();
+        let paddrs = n.verif_peer_addrs();
+        let mut peers: Vec<Value> = n
+            .verif_peers()
+            .iter()
+            .map(|p| {
+                let ct = objs.iter().find(|o| o.1 && o.0 == p.addr).map(|o| (o.2 as i64, o.4 as i64)).unwrap_or((0, -1));
+                let addrs: Vec<u16> = paddrs.iter().find(|x| x.0 == p.addr).map(|x| x.1.iter().map(port_of).collect()).unwrap_or_default();
+                json!({"a": port_of(&p.addr), "nid": self.nid(&p.node_id), "exp": p.timeout, "pt": p.peer_timeout, "init": p.has_init, "ist": ct.0, "ct": ct.1,
+                       "plain": p.algorithm == "PLAIN", "addrs": addrs})
+            })
+            .collect();
+        peers.sort_by_key(|v| v["a"].as_u64());
+        let mut pend: Vec<Value> = objs.iter().filter(|o| !o.1).map(|o| json!({"a": port_of(&o.0), "st": o.2, "r": o.3})).collect();
+        pend.sort_by_key(|v| v["a"].as_u64());
+        let mut claims: Vec<Value> = n.verif_table().verif_claims().iter().map(|(peer, range, exp)| json!({"p": port_of(peer), "r": format!("{}", range), "exp": exp})).collect();
+        claims.sort_by_key(|v| v.to_string());
+        let mut cachep: Vec<u16> = n.verif_table().verif_cache().iter().map(|(_, peer, _)| port_of(peer)).collect();
+        cachep.sort();
+        cachep.dedup();
+        let mut own: Vec<u16> = n.verif_own_addresses().iter().map(port_of).collect();
+        own.sort();
+        own.dedup();
+        let (np, nr) = n.verif_timers();
+        let rc: Vec<Value> = n.verif_reconnect().iter().map(|(a, tries, to, next)| json!({"a": a.iter().map(port_of).collect::<Vec<_>>(), "tries": tries, "to": to, "next": next})).collect();
+        json!({"peers": peers, "pend": pend, "claims": claims, "cachep": cachep, "own": own, "np": np, "nr": nr, "rc": rc})
+    }
+
+    fn type_name(t: u8) -> &'static str {
+        match t {
+            0 => "data",
+            1 => "nodeinfo",
+            2 => "keepalive",
+            0xff => "close",
+            _ => "other",
+        }
+    }
+
+    /// emissions reported by the send hooks, in order: typed+raw -> one datagram, raw alone -> handshake or rotation
+    /// message, bcast -> one datagram
+    fn send_tags(evs: &[VerifEvent]) -> Vec<&'static str> {
+        let mut tags: Vec<&'static str> = vec![];
+        let mut k = 0;
+        while k < evs.len() {
+            match evs[k].kind {
+                "typed" => {
+                    tags.push(Self::type_name(evs[k].msg_type));
+                    if k + 1 < evs.len() && evs[k + 1].kind == "raw" {
+                        k += 1;
+                    }
+                }
+                "bcast" => tags.push(Self::type_name(evs[k].msg_type)),
+                "raw" => tags.push("raw"),
+                _ => {}
+            }
+            k += 1;
+        }
+        tags
+    }
+
+    /// classified result of one driver call from the hook's event log
+    fn classify(&self, evs: &[VerifEvent], sent: &[Dgram], panicked: bool) -> (Vec<Value>, bool, String, i64, Option<Value>) {
+        let tname = Self::type_name;
+        let tagerr = sent.iter().any(|d| d.tag == "?");
+        let out: Vec<Value> = sent.iter().map(|d| json!([port_of(&d.to), d.tag])).collect();
+        // result
+        let mut res = "ignored".to_string();
+        let mut mt = -1i64;
+        let mut info = None;
+        for e in evs {
+            match e.kind {
+                "msg" => {
+                    mt = e.msg_type as i64;
+                    res = tname(e.msg_type).to_string();
+                    if res == "other" {
+                        res = "unknown".into()
+                    }
+                }
+                "initialized" | "initialized-reply" | "reply" | "none" => res = e.kind.to_string(),
+                "info" => {}
+                _ => {}
+            }
+            if let Some(i) = &e.info {
+                info = Some(self.info_json(i));
+            }
+        }
+        for e in evs {
+            match e.kind {
+                "err-fatal" => res = "fatal".into(),
+                "err-init" => res = "errinit".into(),
+                "err-other" => res = "err".into(),
+                _ => {}
+            }
+        }
+        if panicked {
+            res = "panic".into();
+        }
+        (out, tagerr, res, mt, info)
+    }
+
+    fn trace_call(&mut self, op: &str, i: usize, res: &CallResult, extra: Value) {
+        if self.trace.is_none() {
+            return;
+        }
+        if !self.tracing() {
+            return;
+        }
+        let (sent, tagerr, r, mt, info) = self.classify(&res.evs, &res.sent, res.panicked);
+        let mut v = json!({"op": op, "n": i + 1, "sent": sent, "tagerr": tagerr, "res": r, "mt": mt, "hasinfo": info.is_some(),
+                           "info": info.unwrap_or(json!({"nid":[0,0],"claims":[],"pt":-1,"addrs":[],"peers":[]})),
+                           "wrote": res.iface.len(), "post": self.post(i)});
+        if let (Some(o), Some(e)) = (v.as_object_mut(), extra.as_object()) {
+            for (k, x) in e {
+                o.insert(k.clone(), x.clone());
+            }
+        }
+        self.tev(v);
     }
 
     fn build(&mut self, port: u16, nat: bool, cfg: &Config) -> Node<P> {
@@ -159,7 +364,9 @@ impl<P: Protocol> Sim<P> {
         let node = self.build(port, nat, cfg);
         self.node_ids.insert(node.verif_node_id(), (port, 0));
         self.nodes.push(SimNode { addr: addr_of(port), node, buf: Box::new(MsgBuffer::new(100)), inc: 0, cfg: cfg.clone(), nat, panics: 0 });
-        self.nodes.len() - 1
+        let i = self.nodes.len() - 1;
+        self.trace_boot(i);
+        i
     }
 
     /// replaces node i by a fresh instance on the same address (restart), optionally with another configuration
@@ -174,6 +381,7 @@ impl<P: Protocol> Sim<P> {
         self.nodes[i].inc = inc;
         self.nodes[i].cfg = cfg;
         self.nodes[i].buf = Box::new(MsgBuffer::new(100));
+        self.trace_boot(i);
     }
 
     pub fn idx_of(&self, a: &SocketAddr) -> Option<usize> {
@@ -183,9 +391,35 @@ impl<P: Protocol> Sim<P> {
     /// drains the mock socket and device of node i; hands datagrams to the network
     fn drain(&mut self, i: usize, res: &mut CallResult) {
         let from = i as u16 + 1;
+        let mut out = vec![];
         while let Some((dst, data)) = self.nodes[i].node.verif_socket().pop_outbound() {
             self.next_id += 1;
-            let d = Dgram { id: self.next_id, t: self.now, from, to: dst, bytes: data };
+            out.push(Dgram { id: self.next_id, t: self.now, from, to: dst, bytes: data, inc: self.nodes[i].inc, tag: "" });
+        }
+        if self.trace.is_some() {
+            res.evs = verif_events_take();
+            let tags = Self::send_tags(&res.evs);
+            if tags.len() == out.len() {
+                for (d, t) in out.iter_mut().zip(tags) {
+                    d.tag = if t == "raw" {
+                        if d.bytes.is_empty() {
+                            "empty"
+                        } else if d.bytes.first() == Some(&0xff) {
+                            "init"
+                        } else {
+                            "rot"
+                        }
+                    } else {
+                        t
+                    };
+                }
+            } else {
+                for d in out.iter_mut() {
+                    d.tag = "?";
+                }
+            }
+        }
+        for d in out {
             if self.capture {
                 self.wire.push(d.clone());
             }
@@ -227,18 +461,33 @@ impl<P: Protocol> Sim<P> {
                 0
             };
             self.seq += 1;
-            self.queue.push(InFlight { due: self.now + delay, seq: self.seq, src, to, id: d.id, bytes: d.bytes.clone() });
+            self.queue.push(InFlight { due: self.now + delay, seq: self.seq, src, to, id: d.id, bytes: d.bytes.clone(), orig: (d.from, d.inc, d.tag) });
         }
     }
 
     /// attacker / replay: a datagram with any claimed source, delivered at `due`
     pub fn inject_later(&mut self, to: usize, src: SocketAddr, bytes: Vec<u8>, due: Time) {
         self.seq += 1;
-        self.queue.push(InFlight { due, seq: self.seq, src, to: to as u16 + 1, id: 0, bytes });
+        // a verbatim copy of something a node really sent keeps its origin; anything else is fabricated
+        let orig = if self.trace.is_some() {
+            self.wire.iter().rev().find(|d| d.bytes == bytes).map(|d| (d.from, d.inc, d.tag)).unwrap_or((0, 0, "forged"))
+        } else {
+            (0, 0, "forged")
+        };
+        self.queue.push(InFlight { due, seq: self.seq, src, to: to as u16 + 1, id: 0, bytes, orig });
     }
 
     /// immediate presentation of a datagram to node `to` (bypasses the queue); returns what the node did
     pub fn present(&mut self, to: usize, src: SocketAddr, bytes: &[u8]) -> CallResult {
+        let orig = if self.trace.is_some() {
+            self.wire.iter().rev().find(|d| d.bytes == bytes).map(|d| (d.from, d.inc, d.tag)).unwrap_or((0, 0, "forged"))
+        } else {
+            (0, 0, "forged")
+        };
+        self.present_from(to, src, bytes, orig, 0)
+    }
+
+    pub fn present_from(&mut self, to: usize, src: SocketAddr, bytes: &[u8], orig: (u16, u32, &'static str), id: u64) -> CallResult {
         let mut res = CallResult::default();
         let n = &mut self.nodes[to];
         if !n.node.verif_socket().put_inbound(src, bytes.to_vec()) {
@@ -250,6 +499,10 @@ impl<P: Protocol> Sim<P> {
             n.panics += 1;
         }
         self.drain(to, &mut res);
+        if self.trace.is_some() {
+            let first = bytes.first().map(|b| *b as i64).unwrap_or(-1);
+            self.trace_call("recv", to, &res, json!({"src": port_of(&src), "first": first, "len": bytes.len(), "id": id, "orig": [orig.0, orig.1], "tag": orig.2}));
+        }
         res
     }
 
@@ -273,11 +526,14 @@ impl<P: Protocol> Sim<P> {
             self.nodes[i].panics += 1;
         }
         self.drain(i, &mut res);
+        self.trace_call("connect", i, &res, json!({"a": port_of(&to)}));
         res
     }
 
     pub fn add_reconnect(&mut self, i: usize, to: SocketAddr) {
         self.nodes[i].node.add_reconnect_peer(format!("{}", to));
+        let res = CallResult::default();
+        self.trace_call("addrc", i, &res, json!({"a": port_of(&to)}));
     }
 
     pub fn iface(&mut self, i: usize, frame: &[u8]) -> CallResult {
@@ -290,6 +546,7 @@ impl<P: Protocol> Sim<P> {
             n.panics += 1;
         }
         self.drain(i, &mut res);
+        self.trace_call("iface", i, &res, json!({}));
         res
     }
 
@@ -304,6 +561,7 @@ impl<P: Protocol> Sim<P> {
             }
         }
         self.drain(i, &mut res);
+        self.trace_call("hk", i, &res, json!({}));
         res
     }
 
@@ -314,6 +572,7 @@ impl<P: Protocol> Sim<P> {
             res.panicked = true;
         }
         self.drain(i, &mut res);
+        self.trace_call("close", i, &res, json!({}));
         res
     }
 
@@ -344,7 +603,7 @@ impl<P: Protocol> Sim<P> {
             }
             let m = self.queue.swap_remove(k);
             let info = InFlightInfo { id: m.id, src: m.src, to: m.to, len: m.bytes.len(), first: m.bytes.first().copied() };
-            let res = self.present((m.to - 1) as usize, m.src, &m.bytes);
+            let res = self.present_from((m.to - 1) as usize, m.src, &m.bytes, m.orig, m.id);
             out.push((info, res));
         }
         out
@@ -354,6 +613,9 @@ impl<P: Protocol> Sim<P> {
     pub fn tick(&mut self) -> Vec<(InFlightInfo, CallResult)> {
         self.now += 1;
         MockTimeSource::set_time(self.now);
+        if self.trace.is_some() {
+            self.tev(json!({"op": "time", "now": self.now}));
+        }
         for i in 0..self.nodes.len() {
             self.housekeep(i);
         }
